@@ -79,13 +79,15 @@ def zx_circuits(draw, tier, max_boxes=None):
             off = draw(st.sampled_from(adj))
             b = {"k": "swap", "l": ["qubit", 0], "r": ["qubit", 0]}
         elif kind == "ket":
-            k = draw(st.integers(1, 2))
+            k = draw(st.integers(1, 4 - len(scan)))
             b, off = {"k": "g", "g": "Ket", "a": draw(st.lists(
                 st.integers(0, 1), min_size=k, max_size=k))},\
                 draw(st.integers(0, len(scan)))
         elif kind == "bra":
             off = draw(st.sampled_from(qs))
-            k = 2 if off in adj and draw(st.booleans()) else 1
+            k = 1
+            while off + k - 1 in adj and draw(st.booleans()):
+                k += 1   # as many adjacent qubits as are there
             b = {"k": "g", "g": "Bra", "a": draw(st.lists(
                 st.integers(0, 1), min_size=k, max_size=k))}
         else:
@@ -147,7 +149,9 @@ def enum_gates(tier):
             b = {"k": "g", "g": g, "a": [k / 8]}
             yield {"d": {"cls": "circuit", "dom": specs.bdom(b),
                          "layers": [[b, 0]]}}
-    for bits in ([], [0], [1], [0, 1], [1, 1, 0]):
+    import itertools
+    for bits in [list(t) for n in range(5)
+                 for t in itertools.product((0, 1), repeat=n)]:
         for g in ("Ket", "Bra"):
             b = {"k": "g", "g": g, "a": bits}
             yield {"d": {"cls": "circuit", "dom": specs.bdom(b),
